@@ -92,7 +92,10 @@ SafeSub(a, b) ==
 SafeMul(a, b) ==
   IF a = 0 \/ b = 0 THEN Small(0)
   ELSE IF a = MinL \/ b = MinL THEN (IF a = 1 THEN Small(b) ELSE IF b = 1 THEN Small(a) ELSE Big)
-  ELSE IF Abs(a) > MaxL \div Abs(b) THEN Big
+  ELSE IF Abs(a) > MaxL \div Abs(b) THEN
+         \* the one product beyond MaxL in magnitude that is still a LONG: exactly -2^31
+         (IF ((a < 0) # (b < 0)) /\ Abs(a) = (MaxL \div Abs(b)) + 1 /\ MaxL % Abs(b) = Abs(b) - 1
+          THEN Small(MinL) ELSE Big)
   ELSE Small(a * b)
 
 \* result of a whole-number computation for result type t
